@@ -881,7 +881,7 @@ def build_wn(wntr, net):
             wn.add_reservoir("N%d" % i, base_head=60.0)
     names = {CLOSED: "CLOSED", OPEN: "OPEN", ACTIVE: "ACTIVE"}
     for j, (a, b, k, st) in enumerate(net["links"]):
-        nm, na, nb = "L%d" % j, "N%d" % a, "N%d" % b
+        nm, na, nb = (net.get("lp", "L") + "%d") % j, "N%d" % a, "N%d" % b
         if k in ("pipe", "cv"):
             wn.add_pipe(nm, na, nb, length=100.0, diameter=0.3, roughness=100.0, initial_status=names[st], check_valve=(k == "cv"))
         elif k == "pump":
@@ -922,13 +922,15 @@ class ImplSim:
         import wntr.sim.hydraulics as hyd
 
         self.wntr, self.net = wntr, net
+        # links may be named like nodes (EPANET numeric ids: pipe '3' and junction '3'): prefix "N" for both
+        self.lp = net.get("lp", "L") + "%d"
         wn = self.wn = build_wn(wntr, net)
         LS = wntr.network.LinkStatus
         for j, v in enumerate(internal0):
-            wn.get_link("L%d" % j)._internal_status = LS(v)
+            wn.get_link(self.lp % j)._internal_status = LS(v)
         self.uacts, self.iacts = {}, {}
         for j, (a, b, k, st) in enumerate(net["links"]):
-            link = wn.get_link("L%d" % j)
+            link = wn.get_link(self.lp % j)
             for v in (CLOSED, OPEN, ACTIVE):
                 # controls that never fire by themselves; their actions are run by the history and notify the real tracker
                 act = ControlAction(link, "status", LS(v))
@@ -988,7 +990,7 @@ class ImplSim:
             return "D=%s C=%s %s" % (_c(sim._internal_graph.data), self.changed(), self.iso())
         j, v = op[1:].split("=")
         (self.uacts if op[0] == "U" else self.iacts)[(int(j), int(v))].run_control_action()
-        link = self.wn.get_link("L%d" % int(j))
+        link = self.wn.get_link(self.lp % int(j))
         return "C=%s V=%d,%d,%d" % (self.changed(), int(link._user_status), int(link._internal_status), int(link.status))
 
     def restart(self):
@@ -1025,7 +1027,7 @@ class ImplSim:
         n = self.net["n"]
         adj = [[] for _ in range(n)]
         for j, (a, b, _, _) in enumerate(self.net["links"]):
-            if self.wn.get_link("L%d" % j).status != LS.Closed:
+            if self.wn.get_link(self.lp % j).status != LS.Closed:
                 adj[a].append(b)
                 adj[b].append(a)
         seen = set(i for i, k in enumerate(self.net["kinds"]) if k != "J")
@@ -1595,7 +1597,7 @@ def build_run_wn(wntr, sc):
             wn.add_reservoir("N%d" % i, base_head=70.0)
     names = {CLOSED: "CLOSED", OPEN: "OPEN", ACTIVE: "ACTIVE"}
     for j, (a, b) in enumerate(sc["links"]):
-        nm, na, nb = "L%d" % j, "N%d" % a, "N%d" % b
+        nm, na, nb = (sc.get("lp", "L") + "%d") % j, "N%d" % a, "N%d" % b
         k = sc["lk"][j] if sc.get("lk") else ["pipe"]
         st = names[sc["init"][j]]
         if k[0] in ("pipe", "cv"):
@@ -1610,7 +1612,7 @@ def build_run_wn(wntr, sc):
     LS = wntr.network.LinkStatus
     for c, (j, t, v) in enumerate(sc["ctrls"]):
         # the INP reader stores plain ints in control actions (LINK x CLOSED AT TIME t -> value 0): both forms must behave alike
-        act = ControlAction(wn.get_link("L%d" % j), "status", int(v) if sc.get("intvals") else LS(v))
+        act = ControlAction(wn.get_link((sc.get("lp", "L") + "%d") % j), "status", int(v) if sc.get("intvals") else LS(v))
         if sc.get("rules"):
             from wntr.network.controls import Rule
             wn.add_control("c%d" % c, Rule(SimTimeCondition(wn, "=", t * 3600), [act], name="c%d" % c))
@@ -1642,6 +1644,32 @@ def run_oracle(wntr, sc, trace=None):
     return prob, stats
 
 
+class _DebugLogging:
+    """results must not depend on the logging level: a share of the scenarios runs with the `wntr` logger at DEBUG (records go to a
+    NullHandler, nothing is printed); everything is restored afterwards"""
+
+    def __init__(self, on):
+        self.on = on
+
+    def __enter__(self):
+        if self.on:
+            import logging
+
+            self.lg = logging.getLogger("wntr")
+            self.saved = (self.lg.level, self.lg.propagate)
+            self.h = logging.NullHandler()
+            self.lg.addHandler(self.h)
+            self.lg.setLevel(logging.DEBUG)
+            self.lg.propagate = False
+
+    def __exit__(self, *a):
+        if self.on:
+            self.lg.removeHandler(self.h)
+            self.lg.setLevel(self.saved[0])
+            self.lg.propagate = self.saved[1]
+        return False
+
+
 class _QuietFds:
     """SuperLU reports singular matrices (`dgstrf info k`) straight to the C stdout: silenced for the non-benign family"""
 
@@ -1668,11 +1696,12 @@ class _QuietFds:
 
 
 def _run_oracle(wntr, sc, wn):
-    with _QuietFds(bool(sc.get("wild"))):
+    with _QuietFds(bool(sc.get("wild"))), _DebugLogging(bool(sc.get("debuglog"))):
         return _run_oracle1(wntr, sc, wn)
 
 
 def _run_oracle1(wntr, sc, wn):
+    lp = sc.get("lp", "L") + "%d"
     sim = wntr.sim.WNTRSimulator(wn)
     kw = {"HW_approx": "piecewise"} if sc.get("piecewise") else {}
     try:
@@ -1719,7 +1748,7 @@ def _run_oracle1(wntr, sc, wn):
         st = res.link["status"].loc[t]
         adj = [[] for _ in range(n)]
         for j, (a, b) in enumerate(sc["links"]):
-            if int(st["L%d" % j]) != 0:
+            if int(st[lp % j]) != 0:
                 adj[a].append(b)
                 adj[b].append(a)
         seen = set(i for i, k in enumerate(sc["kinds"]) if k != "J")
@@ -1739,7 +1768,7 @@ def _run_oracle1(wntr, sc, wn):
             for (jj, tt, vv) in sc["ctrls"]:
                 if jj == j and tt * 3600 <= t:
                     cmd = vv
-            if cmd != CLOSED and int(st["L%d" % j]) == 0:
+            if cmd != CLOSED and int(st[lp % j]) == 0:
                 selfc += 1
         stats["self_closed_link_steps"] = stats.get("self_closed_link_steps", 0) + selfc
         if selfc and len(seen) < n:
@@ -1754,7 +1783,7 @@ def _run_oracle1(wntr, sc, wn):
             if i not in seen:
                 stats["iso_steps"] += 1
                 bad = [("pressure", p)] * (p != 0.0) + [("demand", d)] * (d != 0.0) + [("leak_demand", lq)] * (lq != 0.0) + \
-                      [("flow L%d" % j, float(flow["L%d" % j])) for j in inc if float(flow["L%d" % j]) != 0.0]
+                      [("flow link %d" % j, float(flow[lp % j])) for j in inc if float(flow[lp % j]) != 0.0]
                 if bad:
                     return ("isolated-not-zeroed", "t=%d junction %s is cut off but reports %s" % (t, nm, bad),
                             {"t": t, "junction": nm, "nonzero": bad}), stats
@@ -1764,8 +1793,8 @@ def _run_oracle1(wntr, sc, wn):
                 if i in was_iso:
                     stats["reconnect"] += 1
                     was_iso.discard(i)
-                net_in = sum(float(flow["L%d" % j]) * (1 if sc["links"][j][1] == i else 0) -
-                             float(flow["L%d" % j]) * (1 if sc["links"][j][0] == i else 0) for j in inc)
+                net_in = sum(float(flow[lp % j]) * (1 if sc["links"][j][1] == i else 0) -
+                             float(flow[lp % j]) * (1 if sc["links"][j][0] == i else 0) for j in inc)
                 exp = sc["demands"][i]
                 zeroed = (p == 0.0 and h == 0.0) or (not sc["pdd"] and d == 0.0)
                 if zeroed:
@@ -1782,8 +1811,8 @@ def _run_oracle1(wntr, sc, wn):
         # still treated as isolated reports (its row is `flow = 0` and store_results writes the integer 0)
         for j, (a, b) in enumerate(sc["links"]):
             k = (sc["lk"][j] if sc.get("lk") else ["pipe"])[0]
-            s_j = int(st["L%d" % j])
-            if s_j == 0 or a not in seen or b not in seen or float(flow["L%d" % j]) != 0.0:
+            s_j = int(st[lp % j])
+            if s_j == 0 or a not in seen or b not in seen or float(flow[lp % j]) != 0.0:
                 continue
             ha, hb = float(res.node["head"].loc[t, "N%d" % a]), float(res.node["head"].loc[t, "N%d" % b])
             if k in ("hpump", "ppump") or (abs(ha - hb) > 1e-6 and (k in ("pipe", "tcv") or s_j == 1)
@@ -1791,7 +1820,7 @@ def _run_oracle1(wntr, sc, wn):
                 stats["link_checked_bad"] = 1
                 return ("connected-link-zeroed", "t=%d link L%d (%s, reported status %d) joins two junctions connected to a source "
                         "(heads %r, %r) but reports flow exactly 0" % (t, j, k, s_j, ha, hb),
-                        {"t": t, "link": "L%d" % j, "kind": k, "status": s_j, "heads": [ha, hb]}), stats
+                        {"t": t, "link": lp % j, "kind": k, "status": s_j, "heads": [ha, hb]}), stats
     return None, stats
 
 
@@ -1953,6 +1982,7 @@ class C09(Check):
         wntr = vlib.import_wntr()
         lines, impls = [], []
         for (net, internal0, ops) in cases:
+          with _DebugLogging(bool(net.get("debuglog"))):
             im = ImplSim(wntr, net, internal0)
             segs = []
             tail_linkless = self._tail_linkless(net)
@@ -1991,7 +2021,7 @@ class C09(Check):
                         gj = [i for i, (_, nd) in enumerate(im.wn.nodes()) if nd._is_isolated]
                         gl = [j for j, (_, l) in enumerate(im.wn.links()) if l._is_isolated]
                         ever_iso = ever_iso or bool(ej)
-                        closed = [j for j in range(len(net["links"])) if im.wn.get_link("L%d" % j).status == wntr.network.LinkStatus.Closed]
+                        closed = [j for j in range(len(net["links"])) if im.wn.get_link(im.lp % j).status == wntr.network.LinkStatus.Closed]
                         # the statement: cut-off junctions and their links are zeroed, nothing connected is.  A stale flag on a
                         # CLOSED link is unobservable (flow 0 either way): that is left to the model comparison, not judged here.
                         link_bad = [j for j in el if j not in gl] + [j for j in gl if j not in el and j not in closed]
@@ -2014,6 +2044,10 @@ class C09(Check):
             par = self._has_parallel(net)
             ctx.case(("net", line), nontrivial=bool(par or getattr(im, "ever_iso", False)))
             ctx.count("net:parallel" if par else "net:simple")
+            if net.get("lp") == "N":
+                ctx.count("net:link-names-like-node-names")
+            if net.get("debuglog"):
+                ctx.count("net:logging-at-DEBUG")
             if any(a == b for a, b, _, _ in net["links"]):
                 ctx.count("net:selfloop")
             if getattr(im, "ever_iso", False):
@@ -2084,6 +2118,10 @@ class C09(Check):
                 ctx.count("run:kind:" + k)
             if sc.get("pause"):
                 ctx.count("run:paused")
+            if sc.get("lp") == "N":
+                ctx.count("run:link-names-like-node-names")
+            if sc.get("debuglog"):
+                ctx.count("run:logging-at-DEBUG")
             if prob is not None:
                 key, text, obs = prob
                 failures.append(Failure("run-" + key, text, {"scenario": sc, "observed": obs}))
@@ -2147,6 +2185,13 @@ class C09(Check):
             net = gen_net(rng, quick=q)
             internal0 = [ACTIVE if rng.random() < 0.9 else rng.choice([CLOSED, OPEN]) for _ in net["links"]]
             nets.append((net, internal0, gen_ops(rng, net, quick=q)))
+        for i, (net, _, _) in enumerate(nets):
+            # a quarter of the graphs: links named like nodes (EPANET numeric ids collide: pipe '3' and junction '3');
+            # a quarter: the wntr logger at DEBUG (the bookkeeping must not depend on the logging level)
+            if i % 4 == 1 or i % 8 == 6:
+                net["lp"] = "N"
+            if i % 4 == 3 or i % 8 == 6:
+                net["debuglog"] = True
         for _ in range(2 if q else 10):  # separate stream: the node(s) with the highest id have no link at all
             net = gen_net(rng, quick=True, linkless_tail=True)
             while net["n"] < 3:
@@ -2180,6 +2225,11 @@ class C09(Check):
         runs += [gen_wild_run(rng) for _ in range(40 if q else 1500)]
         # a zone that lives on a small tank until WNTR's own tank control closes the tank's link (internal status)
         runs += [gen_tank_drain_run(rng) for _ in range(4 if q else 60)]
+        for i, sc in enumerate(runs):
+            if i % 4 == 1 or i % 8 == 6:
+                sc["lp"] = "N"                # link names collide with node names
+            if i % 4 == 3 or i % 8 == 6:
+                sc["debuglog"] = True         # run with logging at DEBUG
         return csr, nets, runs
 
     def correspondence(self, ctx):
